@@ -459,6 +459,10 @@ func (env *Env) equalVals(l, r Val) string {
 		// identity of slice headers
 		return and(eq(l.Fs[0].T, r.Fs[0].T), eq(l.Fs[1].T, r.Fs[1].T), eq(l.Fs[2].T, r.Fs[2].T))
 	}
+	if l.K == KSeq && r.K == KSeq {
+		// same underlying array and window (sufficient for "unchanged")
+		return and(eq(l.Fs[0].T, r.Fs[0].T), eq(l.Fs[1].T, r.Fs[1].T), eq(l.Fs[2].T, r.Fs[2].T))
+	}
 	if l.K == KStruct && r.K == KStruct && len(l.Fs) == len(r.Fs) {
 		var cs []string
 		for i := range l.Fs {
@@ -476,12 +480,15 @@ func (env *Env) evalField(x EField) Val {
 	if id, ok := x.X.(EIdent); ok && env.pkg != nil && !env.pure {
 		if _, isBound := env.bound[id.Name]; !isBound {
 			if _, isName := env.names[id.Name]; !isName && env.findCell(id.Name) == nil {
-				for _, imp := range env.pkg.Imports() {
+				cands := append([]*types.Package{env.pkg}, env.pkg.Imports()...)
+				for _, sp := range e.prog.AllPackages() {
+					cands = append(cands, sp.Pkg)
+				}
+				for _, imp := range cands {
 					if imp.Name() == id.Name {
 						if v, ok := env.pkgObject(imp, x.Name); ok {
 							return v
 						}
-						cerr("unknown %s.%s", id.Name, x.Name)
 					}
 				}
 			}
@@ -769,6 +776,10 @@ func (env *Env) evalCall(x ECall) Val {
 		cerr("offof")
 	case "seq":
 		return env.toSeq(env.eval(x.Args[0]))
+	case "raw":
+		// the whole backing array of a slice, indexed absolutely
+		v := env.toSeq(env.eval(x.Args[0]))
+		return Val{K: KSeq, Fs: []Val{v.Fs[0], intv("0"), intv(sx("+", v.Fs[1].T, v.Fs[2].T))}}
 	case "min":
 		a, b := env.eval(x.Args[0]).T, env.eval(x.Args[1]).T
 		return intv(ite(sx("<=", a, b), a, b))
